@@ -2,6 +2,8 @@ package rules
 
 import (
 	"go/token"
+	"go/types"
+	"reflect"
 	"strings"
 
 	"golang.org/x/tools/go/ssa"
@@ -17,6 +19,7 @@ func init() {
 	}
 	register(&core.Rule{ID: "R-DISK-MONOTONE", Props: []string{"C18"}, Doc: "checkThreshold: exactly one branch condition depends on `free`, it is free < T with T independent of free, errors are returned only on its true side and nil only on its false side", Run: ruleDiskMonotone})
 	register(&core.Rule{ID: "R-DISK-FORMULA", Props: []string{"C18"}, Doc: "threshold = minSpaceRequired·2^30 if minSpaceRequired > 0; else 50·2^30·(total / 256·2^30) if total ≤ 256·2^30; else 50·2^30 (constants compared exactly)", Run: ruleDiskFormula})
+	register(&core.Rule{ID: "R-DISK-SETTING", Props: []string{"C18"}, Doc: "the operator's value reaches the check unchanged: --min-space-required is registered as a float64 flag, Config.MinSpaceRequired is a float64 bound to that key, and nothing in the module rewrites the key (viper.Set) or the field except from a registered float64 alias flag", Run: ruleDiskSetting})
 	register(&core.Rule{ID: "R-DISK-USE", Props: []string{"C18"}, Doc: "CheckDiskUsage(total=Blocks·Bsize, free=Bavail·Bsize, config.MinSpaceRequired); startPipeline exits on its error before starting any stage; WatchDiskSpace calls Pause exactly when err!=nil && !paused and Resume exactly when err==nil && paused, updating the flag on those paths", Run: ruleDiskUse})
 }
 
@@ -404,4 +407,102 @@ func ruleDiskUse(r *core.Reporter) {
 	}
 	check(pauseCall, false, false, "pause", "true")
 	check(resumeCall, true, true, "resume", "false")
+}
+
+// registeredFlags: names given to (*pflag.FlagSet) definers anywhere in the module, with the definer name (Float64, Int, …).
+func registeredFlags(p *core.Program) map[string]string {
+	out := map[string]string{}
+	for _, fn := range p.ModFuncs {
+		allInstrs(fn, func(in ssa.Instruction) {
+			c, ok := in.(*ssa.Call)
+			if !ok {
+				return
+			}
+			cal := ir.CalleeOf(c.Common())
+			if cal == nil || cal.Pkg == nil || cal.Pkg.Pkg.Path() != "github.com/spf13/pflag" || cal.Signature.Recv() == nil || len(c.Call.Args) < 3 {
+				return
+			}
+			if name, okc := ir.ConstString(c.Call.Args[1]); okc {
+				switch cal.Name() {
+				case "MarkDeprecated", "MarkHidden", "Lookup", "Set", "Changed":
+				default:
+					out[name] = cal.Name()
+				}
+			}
+		})
+	}
+	return out
+}
+
+func ruleDiskSetting(r *core.Reporter) {
+	p := r.P
+	const key = "min-space-required"
+	flags := registeredFlags(p)
+	if !r.Floor("registered command-line flags", len(flags), 40) {
+		return
+	}
+	if def, ok := flags[key]; !ok {
+		r.Violated("flag/"+key, "", "the --%s flag is not registered", key)
+	} else if def != "Float64" {
+		r.Violated("flag/"+key, "", "--%s is registered with %s: fractional GiB settings are lost before they reach the threshold", key, def)
+	} else {
+		r.Held("flag/"+key, 1, "registered as a float64 flag")
+	}
+	// the Config field is bound to that key and is float64
+	bound := false
+	if cfg := p.SSA.ImportedPackage(pkgConfig); cfg != nil {
+		if tn, ok := cfg.Members["Config"].(*ssa.Type); ok {
+			if st, okS := tn.Type().Underlying().(*types.Struct); okS {
+				for i := 0; i < st.NumFields(); i++ {
+					if st.Field(i).Name() == "MinSpaceRequired" {
+						tag := reflect.StructTag(st.Tag(i)).Get("mapstructure")
+						b, _ := st.Field(i).Type().Underlying().(*types.Basic)
+						bound = tag == key && b != nil && b.Kind() == types.Float64
+					}
+				}
+			}
+		}
+	}
+	if bound {
+		r.Held("config/binding", 1, "Config.MinSpaceRequired is a float64 bound to %q", key)
+	} else {
+		r.Violated("config/binding", "", "Config.MinSpaceRequired is not a float64 bound to %q", key)
+	}
+	// nobody rewrites the setting between the command line and the check
+	n := 0
+	for _, fn := range p.ModFuncs {
+		allInstrs(fn, func(in ssa.Instruction) {
+			if st, ok := in.(*ssa.Store); ok {
+				if tn, f, okf := ir.FieldOf(st.Addr); okf && tn == pkgConfig+".Config" && f == "MinSpaceRequired" {
+					n++
+					r.Violated("writers/"+core.FuncName(fn), p.InstrPos(in), "Config.MinSpaceRequired is overwritten after the command line was read")
+				}
+			}
+			c, ok := in.(*ssa.Call)
+			if !ok || !ir.IsCallTo(c, "github.com/spf13/viper.Set") {
+				return
+			}
+			if k, okc := ir.ConstString(c.Call.Args[0]); !okc || k != key {
+				return
+			}
+			n++
+			// allowed: copying a registered alias flag's value
+			src := ""
+			if mi, isMI := c.Call.Args[1].(*ssa.MakeInterface); isMI {
+				if g, isC := ir.Strip(mi.X).(*ssa.Call); isC {
+					if cal := ir.CalleeOf(g.Common()); cal != nil && cal.Pkg != nil && cal.Pkg.Pkg.Path() == "github.com/spf13/viper" && len(g.Call.Args) == 1 {
+						src, _ = ir.ConstString(g.Call.Args[0])
+					}
+				}
+			}
+			if def, isFlag := flags[src]; src != "" && isFlag && def == "Float64" {
+				r.HeldAt("writers/"+core.FuncName(fn), p.InstrPos(in), 1, "copies the registered float64 alias flag --%s", src)
+				return
+			}
+			r.Violated("writers/"+core.FuncName(fn), p.InstrPos(in), "viper.Set(%q, …) replaces the operator's setting with a value that is not a registered float64 alias flag (source %q): the threshold the operator gave is not the one enforced", key, src)
+		})
+	}
+	if n == 0 {
+		r.Held("writers", 1, "nothing in the module rewrites %q or Config.MinSpaceRequired after flag parsing", key)
+	}
 }
